@@ -172,6 +172,8 @@ def check(case, obs):
             rtol = 2e-2
         # agreement between spellings/containers: same numbers up to summation-order rounding
         etol = 1e-12 if rtol == 1e-9 else rtol / 10.0
+        if rtol == 2e-2 and stat in GEOM:
+            etol = 0.25        # half-precision logs (C12-KF1): summation order alone moves gstd by several per cent
         got_s = call(fn, x, ch_arg)
         if not obs.claim('no_raise', not raised(got_s), lambda: '%s(sample, %r) raised %r' % (stat, ch_arg, got_s)):
             continue
